@@ -37,6 +37,7 @@ PARTIAL = [
     "MFPCA: inverse_transform (componentwise) and transform(None, NumInt) with 1-D components (sum of the univariate scores) are modelled; image components (smoothed before integration), PACE and the covariance-route transform are C04's subject",
 ]
 UNCENTRED = "normalize_rescales_uncentred"
+INCREMENTAL = "fit_state_assigned_incrementally"
 RTOL = 1e-9
 
 
@@ -106,6 +107,8 @@ def gen_cases(rng: Rng, tier):
                 tR = grid(rng, mR)
                 XR, _ = curves(rng, rng.randint(3, 7), tR, "rough" if ck in ("smooth", "lowrank", "offset") else "smooth")
                 case["R"] = dict(dim=1, t=Svec(tR), X=Smat(XR))
+        if "R" in case and k % 2 == 1:
+            case["inject"] = True   # failure-injection history on the refit (see _failure_history)
         if k % 2 == 0 or two_d:
             # two-grid history in one process: afterwards the same pipeline runs on ANOTHER grid with the same
             # number of points and the same end points (other interior points), with other curves
@@ -256,7 +259,100 @@ def run_impl(case):
             fresh = UFPCA(method=cr["method"], n_components=sel_to_py(cr["sel"]), normalize=cr["normalize"])
             _, e = _try(lambda: fresh.fit(_fd(cr)))
             out["R_fresh"] = dict(error=e) if e else _state(fresh, cr)
+        if case.get("inject"):
+            out["F"] = _failure_history(case, cr)
     return out
+
+
+class _Injected(RuntimeError):
+    """Failure injected from outside into one internal call of `fit`."""
+
+
+INJECTION_POINTS = ["none", "mean", "center", "rescale", "noise_variance", "fit_helper", "compute_covariance", "warning_as_error"]
+
+
+def _observe(est):
+    """Public behaviour of a fitted estimator (what a caller can see after a fit that raised)."""
+    o = {}
+    with quiet():
+        for key, f in (("mean", lambda: _flat(est.mean.values)[0]), ("weights", lambda: float(est.weights)),
+                       ("vals", lambda: [float(x) for x in np.asarray(est.eigenvalues)]),
+                       ("phi", lambda: _flat(est.eigenfunctions.values)),
+                       ("cov", lambda: None if est.covariance is None else _flat(est.covariance.values)),
+                       ("s_none", lambda: np.asarray(est.transform(None, method="NumInt"), dtype=float).tolist()),
+                       ("inv", lambda: _flat(est.inverse_transform(np.ones((1, len(est.eigenvalues)))).values))):
+            v, e = _try(f)
+            o[key] = ("error", e) if e else v
+    return o
+
+
+def _same(a, b):
+    try:
+        if isinstance(a, tuple) or isinstance(b, tuple) or a is None or b is None:
+            return a == b
+        x, y = np.asarray(a, dtype=float), np.asarray(b, dtype=float)
+        return x.shape == y.shape and np.array_equal(x, y, equal_nan=True)
+    except (TypeError, ValueError):
+        return False
+
+
+def _failure_history(case, cr):
+    """Refit of a fitted estimator on other data with a failure injected, in turn, into each internal step of
+    `fit` (wrapped from outside; the last one escalates warnings to errors).  After a fit that raised the estimator
+    must be entirely in its previous state or entirely in the state of a fit on the new data; each observable is
+    classified old / new / same (equal in both) / neither."""
+    import warnings
+
+    from FDApy.preprocessing.dim_reduction import ufpca as U
+    from FDApy.representation.functional_data import DenseFunctionalData as D
+
+    mk = lambda: U.UFPCA(method=case["method"], n_components=sel_to_py(case["sel"]), normalize=case["normalize"])  # noqa: E731
+    with quiet():
+        e0 = mk()
+        _, err = _try(lambda: e0.fit(_fd(case)))
+        e1 = mk()
+        _, err1 = _try(lambda: e1.fit(_fd(cr)))
+    if err or err1:
+        return dict(skipped=f"{err} / {err1}")
+    old, new = _observe(e0), _observe(e1)
+    res = []
+    for point in INJECTION_POINTS:
+        est = mk()
+        with quiet():
+            est.fit(_fd(case))
+
+        def boom(*a, **k):
+            raise _Injected(point)
+
+        patches = {"mean": [(D, "mean")], "center": [(D, "center")], "rescale": [(D, "rescale")],
+                   "noise_variance": [(D, "noise_variance")],
+                   "fit_helper": [(U, "_fit_covariance"), (U, "_fit_inner_product")],
+                   "compute_covariance": [(U, "_compute_covariance")]}.get(point, [])
+        saved = [(o, n, getattr(o, n)) for o, n in patches if hasattr(o, n)]
+        raised = None
+        try:
+            for o, n, _ in saved:
+                setattr(o, n, boom)
+            with warnings.catch_warnings(), np.errstate(all="ignore"):
+                warnings.simplefilter("error" if point == "warning_as_error" else "ignore")
+                try:
+                    est.fit(_fd(cr))
+                except _Injected:
+                    raised = "Injected"
+                except Warning as w:
+                    raised = "Warning:" + type(w).__name__
+                except Exception as e:  # noqa: BLE001
+                    raised = "Other:" + type(e).__name__
+        finally:
+            for o, n, f in saved:
+                setattr(o, n, f)
+        after = _observe(est)
+        cls = {}
+        for key in after:
+            so, sn = _same(after[key], old[key]), _same(after[key], new[key])
+            cls[key] = "same" if (so and sn) else "old" if so else "new" if sn else "neither"
+        res.append(dict(point=point, raised=raised, cls=cls))
+    return dict(points=res)
 
 
 def _case_r(case):
@@ -577,6 +673,31 @@ def oracle(case, impl):
         for v in _oracle_one(_case_b(case), impl["B"]):
             v["msg"] = "second grid (same length and end points): " + v["msg"]
             vs.append(v)
+    for h in (impl.get("F") or {}).get("points", []):
+        cls = h["cls"]
+        olds = {k for k, v in cls.items() if v == "old"}
+        news = {k for k, v in cls.items() if v == "new"}
+        odd = {k for k, v in cls.items() if v == "neither"}
+        if h["raised"] is None:
+            ok = not olds and not odd          # the refit succeeded: everything is the new state
+        else:
+            ok = not odd and (not olds or not news)   # it raised: all old or all new, never a mixture
+        if not ok:
+            causes = []
+            # the two mixtures of the unchanged code (open finding): mean / weights assigned before the results
+            # exist, and the covariance of a previous fit surviving a later fit that does not compute one
+            base = {k: cls[k] for k in ("mean", "weights", "vals", "phi", "cov") if k in cls}
+            b_new = {k for k, v in base.items() if v == "new"}
+            b_old = {k for k, v in base.items() if v == "old"}
+            b_odd = {k for k, v in base.items() if v == "neither"}
+            if (h["raised"] is not None and not b_odd and b_new and b_new <= {"mean", "weights"}
+                    and cls.get("s_none") in ("old", "same")):
+                causes.append(INCREMENTAL)   # only mean / weights moved; eigencomponents and training data are the old ones
+            if not b_odd and b_old == {"cov"} and cls.get("s_none") in ("new", "same") and cls.get("inv") in ("new", "same"):
+                causes.append(INCREMENTAL)   # everything is new except a covariance surviving from the previous fit
+            vs.append(dict(clause="fit_atomicity", entry="UFPCA.fit", causes=causes,
+                           msg=f"refit ({case['dim']}-D -> {case['R']['dim']}-D data, {case['method']}) with a failure injected at `{h['point']}` (raised: {h['raised']}): "
+                               f"the estimator is a mixture — old: {sorted(olds)}, new: {sorted(news)}, neither: {sorted(odd)}"))
     if "R" in case and isinstance(impl.get("R"), dict) and "__crash__" not in impl:
         cr = _case_r(case)
         for v in _oracle_one(cr, impl["R"]):
